@@ -94,10 +94,10 @@ func (p *Prog) posKey(pos token.Pos) string {
 	return fmt.Sprintf("%s:%d:%d", strings.TrimPrefix(ps.Filename, p.Dir+"/"), ps.Line, ps.Column)
 }
 
-// exprAt returns the normalised source text of the innermost expression of fn's
+// ExprAt returns the normalised source text of the innermost expression of fn's
 // declaration whose "anchor" position (Lbrack for index/slice, Lparen for
 // assertions/calls, OpPos for binary) equals pos.
-func (p *Prog) exprAt(fn *ssa.Function, pos token.Pos) string {
+func (p *Prog) ExprAt(fn *ssa.Function, pos token.Pos) string {
 	root := fn
 	for root.Parent() != nil {
 		root = root.Parent()
@@ -161,7 +161,7 @@ func (p *Prog) exprAt(fn *ssa.Function, pos token.Pos) string {
 // that interface reachable on its type (whoever receives it, library code
 // included, may call them).
 func (p *Prog) Reach(roots []*ssa.Function) map[*ssa.Function]bool {
-	named := p.pandoraNamedTypes()
+	named := p.PandoraNamedTypes()
 	addrTaken := p.addressTaken()
 	seen := map[*ssa.Function]bool{}
 	var work []*ssa.Function
@@ -262,8 +262,8 @@ func (p *Prog) Reach(roots []*ssa.Function) map[*ssa.Function]bool {
 	return out
 }
 
-// pandoraNamedTypes lists the named non-interface types of production pandora packages.
-func (p *Prog) pandoraNamedTypes() []*types.Named {
+// PandoraNamedTypes lists the named non-interface types of production pandora packages.
+func (p *Prog) PandoraNamedTypes() []*types.Named {
 	if p.named != nil {
 		return p.named
 	}
@@ -438,7 +438,7 @@ func (p *Prog) PanicSites(fns map[*ssa.Function]bool) ([]PanicSite, error) {
 			}
 			for _, in := range b.Instrs {
 				add := func(kind string, pos token.Pos, guard string) {
-					s := PanicSite{Kind: kind, Fn: fn, Instr: in, Pos: pos, Expr: p.exprAt(fn, pos), Guard: guard}
+					s := PanicSite{Kind: kind, Fn: fn, Instr: in, Pos: pos, Expr: p.ExprAt(fn, pos), Guard: guard}
 					if s.Expr == "" {
 						s.Expr = "@" + p.posKey(pos)
 					}
